@@ -377,8 +377,11 @@ class Report(object):
         ev = dict(property_id=self.pid, tier=self.tier, seed=self.seed, level=level,
                   coverage=cov, assumptions=assumptions or self.assumptions,
                   wall_s=round(time.time() - self.t0, 2), violations=len(self.violations))
-        os.makedirs(os.path.join(VERIF, "evidence"), exist_ok=True)
-        with open(os.path.join(VERIF, "evidence", "%s.json" % self.pid), "w") as fh:
+        # runs against a scratch copy of /repo (seeded changes, PYFS2_VERIF_REPO) must not overwrite the evidence of
+        # the real tree: tools/mutant.py points this at a scratch directory
+        evdir = os.environ.get("PYFS2_VERIF_EVIDENCE_DIR") or os.path.join(VERIF, "evidence")
+        os.makedirs(evdir, exist_ok=True)
+        with open(os.path.join(evdir, "%s.json" % self.pid), "w") as fh:
             json.dump(ev, fh, indent=1, sort_keys=True, default=str)
             fh.write("\n")
         for k, ex in self.known_seen:
